@@ -86,6 +86,9 @@ impl RefClient {
     pub fn apply(&self, range: Range, new_text: &str) -> Option<String> {
         let a = self.offset(range.start)?;
         let b = self.offset(range.end)?;
+        // a position between the two halves of a surrogate pair is not a position
+        self.char_index(a)?;
+        self.char_index(b)?;
         if a > b {
             return None;
         }
@@ -93,6 +96,25 @@ impl RefClient {
         out.extend(new_text.encode_utf16());
         out.extend(&self.units[b..]);
         String::from_utf16(&out).ok()
+    }
+}
+
+/// Report::fail keeps the first 2000 failures of a run; the known finding F9 alone produces more than that
+/// in the thorough tier.  So that no class can crowd out another, at most PER_CLASS failures of one class are
+/// listed; the rest are only counted (`fail_not_listed:<class>` in the distribution).
+const PER_CLASS: usize = 140;
+thread_local! { static LISTED: std::cell::RefCell<std::collections::HashMap<String, usize>> = Default::default(); }
+fn fail(rep: &mut Report, class: &str, what: String, input: Value) {
+    let n = LISTED.with(|m| {
+        let mut m = m.borrow_mut();
+        let e = m.entry(class.to_string()).or_insert(0);
+        *e += 1;
+        *e
+    });
+    if n <= PER_CLASS {
+        rep.fail(class, what, input);
+    } else {
+        rep.count(&format!("fail_not_listed:{class}"));
     }
 }
 
@@ -108,6 +130,32 @@ fn inside_crlf(t: &[char], i: usize) -> bool {
 /// the class of F9 (Model/PosConv.v: KnownClass): a position on the final line, line >= 1
 fn known_class(t: &[char], line: u32) -> bool {
     line >= 1 && t.iter().filter(|c| **c == '\n').count() == line as usize
+}
+/// range_to_span at a single position (start == end: Span::new cannot panic)
+fn idx_of(t: &[char], p: Position) -> Result<usize, String> {
+    guarded(|| range_to_span(t, Range { start: p, end: p }).start)
+}
+/// F9's signature at one position: it lies on the final line (line >= 1) and is answered exactly as
+/// the same column one line up is answered ("resolved on the line before it")
+fn f9_explains(t: &[char], p: Position, got: usize) -> bool {
+    known_class(t, p.line) && idx_of(t, Position { line: p.line - 1, character: p.character }) == Ok(got)
+}
+/// a failed request over (p1, p2) is an occurrence of F9 iff at least one endpoint is answered wrongly
+/// and every wrongly answered endpoint carries F9's signature
+fn f9_request(t: &[char], rc: &RefClient, p1: Position, p2: Position) -> bool {
+    let mut any_wrong = false;
+    for p in [p1, p2] {
+        let (want, got) = (rc.resolve(p), idx_of(t, p));
+        if want.is_none() || got.as_ref().ok().copied() == want {
+            continue;
+        }
+        any_wrong = true;
+        match got {
+            Ok(g) if f9_explains(t, p, g) => {}
+            _ => return false,
+        }
+    }
+    any_wrong
 }
 fn pos(l: usize, c: usize) -> Position {
     Position { line: l as u32, character: c as u32 }
@@ -181,11 +229,11 @@ fn check_span(rep: &mut Report, cx: &Ctx, t: &[char], text: &str, rc: &RefClient
         return;
     }
     match r {
-        Err(m) => rep.fail("span_to_range_panics", format!("span_to_range panicked on a span inside the text: {m}"), text_input(t, origin)),
+        Err(m) => fail(rep, "span_to_range_panics", format!("span_to_range panicked on a span inside the text: {m}"), text_input(t, origin)),
         Ok(rg) => {
             let (x, y) = (rc.resolve(rg.start), rc.resolve(rg.end));
             if x != Some(a) || y != Some(b) {
-                rep.fail(
+                fail(rep, 
                     "range_wrong",
                     format!("span [{a},{b}) became range {} which an LSP client reads as characters {:?}..{:?}", fmt_range(&rg), x, y),
                     text_input(t, origin),
@@ -221,7 +269,7 @@ fn check_edit(rep: &mut Report, cx: &Ctx, doc: &Document, t: &[char], rc: &RefCl
     }
     let inp = json!({"kind": "edit", "text": t.iter().collect::<String>(), "a": a, "b": b, "sug": kind, "cs": cs.iter().collect::<String>(), "origin": origin});
     let Some((title, e)) = edit else {
-        rep.fail("edit_panics", "lint_to_code_actions panicked or returned no edit for a span inside the text".into(), inp);
+        fail(rep, "edit_panics", "lint_to_code_actions panicked or returned no edit for a span inside the text".into(), inp);
         return;
     };
     let want = guarded(|| {
@@ -232,11 +280,11 @@ fn check_edit(rep: &mut Report, cx: &Ctx, doc: &Document, t: &[char], rc: &RefCl
     let got = rc.apply(e.range, &e.new_text);
     rep.count(&format!("edit:{}", ["replace", "insert_after", "remove"][kind.min(2)]));
     if title != s.to_string() {
-        rep.fail("edit_title", format!("code action title {title:?} is not the suggestion {s}"), inp.clone());
+        fail(rep, "edit_title", format!("code action title {title:?} is not the suggestion {s}"), inp.clone());
     }
     match (want, got) {
         (Ok(w), Some(g)) if w == g => {}
-        (w, g) => rep.fail("edit_mismatch", format!("client applying the TextEdit gets {g:?}, Suggestion::apply gets {w:?}"), inp),
+        (w, g) => fail(rep, "edit_mismatch", format!("client applying the TextEdit gets {g:?}, Suggestion::apply gets {w:?}"), inp),
     }
 }
 
@@ -254,31 +302,36 @@ fn check_lookup(rep: &mut Report, t: &[char], rc: &RefClient, p1: Position, p2: 
     if !in_domain {
         return;
     }
-    // valid positions in document order must resolve to the characters they denote
+    // a request an editor can send: valid positions in document order.  What generate_code_actions needs
+    // of range_to_span: no panic (Span::new), and the START is the character the position denotes
+    // (the lookup span is [start, start+1)).  A start at the very end of the text denotes no character
+    // and cannot lie inside a diagnostic range: only "no panic" is demanded there.
     if let (Some(i1), Some(i2)) = (rc.resolve(p1), rc.resolve(p2)) {
         if i1 > i2 {
             return;
         }
         rep.count("lookup:valid_position_pair");
-        let known = known_class(t, p1.line) || known_class(t, p2.line);
-        if known {
+        if known_class(t, p1.line) || known_class(t, p2.line) {
             rep.count("lookup:on_final_line(line>=1)");
         }
-        let ok = matches!(&r, Ok(s) if s.start == i1 && s.end == i2);
-        if !ok {
+        if i1 == t.len() {
+            rep.count("lookup:start_at_end_of_text(no character there: no-panic only)");
+        }
+        let start_ok = i1 == t.len() || matches!(&r, Ok(s) if s.start == i1);
+        if !(r.is_ok() && start_ok) {
             let got = match &r {
                 Ok(s) => format!("characters {}..{}", s.start, s.end),
                 Err(m) => format!("a panic ({m})"),
             };
             let inp = json!({"kind": "lookup", "text": t.iter().collect::<String>(), "p1": [p1.line, p1.character], "p2": [p2.line, p2.character], "origin": origin});
-            if known {
-                rep.fail(
+            if f9_request(t, rc, p1, p2) {
+                fail(rep, 
                     "lookup_last_line",
                     format!("range {} denotes characters {i1}..{i2} but range_to_span answers {got}: a position on the final line (line >= 1) is resolved on the line before it", fmt_range(&rg)),
                     inp,
                 );
             } else {
-                rep.fail("lookup_wrong", format!("range {} denotes characters {i1}..{i2} but range_to_span answers {got}", fmt_range(&rg)), inp);
+                fail(rep, "lookup_wrong", format!("range {} denotes characters {i1}..{i2} but range_to_span answers {got}", fmt_range(&rg)), inp);
             }
         }
     } else {
@@ -289,14 +342,18 @@ fn check_lookup(rep: &mut Report, t: &[char], rc: &RefClient, p1: Position, p2: 
 /// the specification side of the model vs the reference client (texts without CR: the model's
 /// `resolve` splits lines at '\n' only)
 fn check_spec(rep: &mut Report, t: &[char], rc: &RefClient, p1: Position, p2: Position, nt: &[char]) {
-    let v = rc.resolve(p1);
-    rep.case(&format!("V {} {} | {}", p1.line, p1.character, cps(t)), &v.map(|i| i.to_string()).unwrap_or("N".into()));
+    let v = rc.resolve(p1).map(|i| i.to_string()).unwrap_or("N".into());
     let nts: String = nt.iter().collect();
-    let got = rc.apply(Range { start: p1, end: p2 }, &nts);
-    rep.case(
-        &format!("C {} | {} | {}", fmt_range(&Range { start: p1, end: p2 }), cps(t), cps(nt)),
-        got.map(|s| format!("O {}", cps(&chars(&s))).trim().to_string()).unwrap_or("N".into()).as_str(),
-    );
+    let got = rc.apply(Range { start: p1, end: p2 }, &nts).map(|s| format!("O {}", cps(&chars(&s))).trim().to_string()).unwrap_or("N".into());
+    // resolve_lsp / client_apply_lsp know "\n", "\r\n" and "\r" like the reference client: every text
+    rep.case(&format!("W {} {} | {}", p1.line, p1.character, cps(t)), &v);
+    rep.case(&format!("D {} | {} | {}", fmt_range(&Range { start: p1, end: p2 }), cps(t), cps(nt)), &got);
+    rep.count("spec:resolve_lsp/client_apply_lsp vs reference client");
+    // resolve / client_apply only know "\n" (harper's view): texts without CR
+    if !has_cr(t) {
+        rep.case(&format!("V {} {} | {}", p1.line, p1.character, cps(t)), &v);
+        rep.case(&format!("C {} | {} | {}", fmt_range(&Range { start: p1, end: p2 }), cps(t), cps(nt)), &got);
+    }
 }
 
 fn check_text(rep: &mut Report, cx: &Ctx, r: &mut Rng, t: &[char], origin: &str, exhaustive: bool) {
@@ -361,10 +418,8 @@ fn check_text(rep: &mut Report, cx: &Ctx, r: &mut Rng, t: &[char], origin: &str,
         let p1 = *r.pick(&grid);
         let p2 = *r.pick(&grid);
         check_lookup(rep, t, &rc, p1, p2, in_domain, origin);
-        if !has_cr(t) {
-            let nt: Vec<char> = (0..r.below(3)).map(|_| *r.pick(&alphabet)).collect();
-            check_spec(rep, t, &rc, p1, p2, &nt);
-        }
+        let nt: Vec<char> = (0..r.below(3)).map(|_| *r.pick(&alphabet)).collect();
+        check_spec(rep, t, &rc, p1, p2, &nt);
     }
     // every ordered pair of valid positions on a small text (a selection an editor can send)
     if n <= 10 || exhaustive {
@@ -412,7 +467,7 @@ fn check_document(rep: &mut Report, cx: &mut Ctx, r: &mut Rng, fe: &str, text: &
     };
     rep.count(&format!("document:{}", fe.split(':').next().unwrap()));
     if diags.len() != lints.len() || diags.iter().zip(&lints).any(|(d, l)| d.message != l.message) {
-        rep.fail("diagnostics_not_lints", format!("{} diagnostics for {} lints, or messages differ", diags.len(), lints.len()), inp);
+        fail(rep, "diagnostics_not_lints", format!("{} diagnostics for {} lints, or messages differ", diags.len(), lints.len()), inp);
         return;
     }
     if lints.is_empty() {
@@ -431,13 +486,13 @@ fn check_document(rep: &mut Report, cx: &mut Ctx, r: &mut Rng, fe: &str, text: &
         // hypothesis: no lint span endpoint between '\r' and '\n'
         if inside_crlf(&t, a) || inside_crlf(&t, b) {
             rep.monitor("violations:lint span endpoint between CR and LF", 1);
-            rep.fail("hyp_crlf_endpoint", format!("lint {:?} \"{}\" has an endpoint between CR and LF", l.span, l.message), inp.clone());
+            fail(rep, "hyp_crlf_endpoint", format!("lint {:?} \"{}\" has an endpoint between CR and LF", l.span, l.message), inp.clone());
             continue;
         }
         rep.monitor("checked:lint span endpoints not between CR and LF", 1);
         let (x, y) = (rc.resolve(d.range.start), rc.resolve(d.range.end));
         if x != Some(a) || y != Some(b) {
-            rep.fail(
+            fail(rep, 
                 "range_wrong",
                 format!("diagnostic \"{}\" for lint span [{a},{b}) has range {} which an LSP client reads as {:?}..{:?}", d.message, fmt_range(&d.range), x, y),
                 inp.clone(),
@@ -481,13 +536,13 @@ fn check_document(rep: &mut Report, cx: &mut Ctx, r: &mut Rng, fe: &str, text: &
             let st = &mut cx.st;
             let cfg = &cx.cfg;
             let acts = guarded(|| st.generate_code_actions(rg, cfg));
-            let known = known_class(&t, rg.start.line) || known_class(&t, rg.end.line);
+            let known = f9_request(&t, &rc, rg.start, rg.end);
             let req = json!({"kind": "document", "frontend": fe, "text": text, "at": [rg.start.line, rg.start.character, rg.end.line, rg.end.character]});
             let miss = |rep: &mut Report, why: String| {
                 if known {
-                    rep.fail("lookup_last_line", format!("code actions requested at {} inside the diagnostic \"{}\" ({}): {why}; the position lies on the final line (line >= 1) and is resolved on the line before it", fmt_range(&rg), d.message, fmt_range(&d.range)), req.clone());
+                    fail(rep, "lookup_last_line", format!("code actions requested at {} inside the diagnostic \"{}\" ({}): {why}; the position lies on the final line (line >= 1) and is resolved on the line before it", fmt_range(&rg), d.message, fmt_range(&d.range)), req.clone());
                 } else {
-                    rep.fail("code_action_missing", format!("code actions requested at {} inside the diagnostic \"{}\" ({}): {why}", fmt_range(&rg), d.message, fmt_range(&d.range)), req.clone());
+                    fail(rep, "code_action_missing", format!("code actions requested at {} inside the diagnostic \"{}\" ({}): {why}", fmt_range(&rg), d.message, fmt_range(&d.range)), req.clone());
                 }
             };
             let acts = match acts {
@@ -507,12 +562,12 @@ fn check_document(rep: &mut Report, cx: &mut Ctx, r: &mut Rng, fe: &str, text: &
                         let lj = c.arguments.as_ref().and_then(|a| a.get(1)).cloned().unwrap_or(Value::Null);
                         let group = std::mem::take(&mut pending);
                         let Ok(gl) = serde_json::from_value::<Lint>(lj.clone()) else {
-                            rep.fail("embedded_lint_unreadable", "the lint embedded in HarperIgnoreLint does not deserialise".into(), req.clone());
+                            fail(rep, "embedded_lint_unreadable", "the lint embedded in HarperIgnoreLint does not deserialise".into(), req.clone());
                             continue;
                         };
                         // every returned edit, applied by the client, is the suggestion applied to the span
                         if group.len() != gl.suggestions.len() {
-                            rep.fail("edit_count", format!("{} edits for {} suggestions", group.len(), gl.suggestions.len()), req.clone());
+                            fail(rep, "edit_count", format!("{} edits for {} suggestions", group.len(), gl.suggestions.len()), req.clone());
                         }
                         for ((title, e), s) in group.iter().zip(&gl.suggestions) {
                             let want = guarded(|| {
@@ -523,13 +578,13 @@ fn check_document(rep: &mut Report, cx: &mut Ctx, r: &mut Rng, fe: &str, text: &
                             let got = rc.apply(e.range, &e.new_text);
                             rep.count(&format!("document_edit:{}", ["replace", "insert_after", "remove"][sug_parts(s).0]));
                             if *title != s.to_string() || !matches!((&want, &got), (Ok(w), Some(g)) if w == g) {
-                                rep.fail("edit_mismatch", format!("edit \"{title}\" at {}: client gets {got:?}, Suggestion::apply of {s} on {:?} gets {want:?}", fmt_range(&e.range), gl.span), req.clone());
+                                fail(rep, "edit_mismatch", format!("edit \"{title}\" at {}: client gets {got:?}, Suggestion::apply of {s} on {:?} gets {want:?}", fmt_range(&e.range), gl.span), req.clone());
                             }
                         }
                         if lj == want_lint {
                             found = true;
                             if group.iter().any(|(_, e)| e.range != d.range) {
-                                rep.fail("edit_range_not_diagnostic_range", "an edit of the lint does not carry the diagnostic's range".into(), req.clone());
+                                fail(rep, "edit_range_not_diagnostic_range", "an edit of the lint does not carry the diagnostic's range".into(), req.clone());
                             }
                         }
                     }
@@ -547,7 +602,22 @@ fn replay_input(rep: &mut Report, cx: &mut Ctx, r: &mut Rng, v: &Value) {
     let t: Vec<char> = v["text"].as_str().unwrap_or("").chars().collect();
     match v["kind"].as_str() {
         Some("document") => check_document(rep, cx, r, v["frontend"].as_str().unwrap_or("plain"), v["text"].as_str().unwrap_or(""), usize::MAX),
-        _ => check_text(rep, cx, r, &t, "replay", t.len() <= 12),
+        kind => {
+            // the exact case first (a long text is not swept exhaustively), then the whole text
+            let rc = RefClient::new(v["text"].as_str().unwrap_or(""));
+            let in_domain = !has_lone_cr(&t);
+            let num = |x: &Value| x.as_u64().unwrap_or(0) as usize;
+            if kind == Some("lookup") {
+                let (p1, p2) = (pos(num(&v["p1"][0]), num(&v["p1"][1])), pos(num(&v["p2"][0]), num(&v["p2"][1])));
+                check_lookup(rep, &t, &rc, p1, p2, in_domain, "replay");
+            }
+            if kind == Some("edit") {
+                let doc = Document::new_from_vec(Lrc::new(t.clone()), &PlainEnglish, &cx.dict);
+                let cs: Vec<char> = v["cs"].as_str().unwrap_or("").chars().collect();
+                check_edit(rep, cx, &doc, &t, &rc, num(&v["sug"]), &cs, num(&v["a"]), num(&v["b"]), in_domain, "replay");
+            }
+            check_text(rep, cx, r, &t, "replay", t.len() <= 12)
+        }
     }
 }
 
@@ -572,7 +642,7 @@ fn random_text(r: &mut Rng, max_pieces: usize) -> Vec<char> {
 
 pub fn run(a: &Args, corpus: &[Value]) {
     let mut rep = Report::new(&a.out);
-    rep.rule = "texts: random concatenations of ASCII/tab/LF/CRLF/lone-CR/astral/combining/BMP-edge pieces (<= 12 pieces; all spans incl. out-of-text ones, the full position grid incl. non-existent lines and columns past the line end, all ordered pairs of valid positions on small texts, 1-3 suggestions per span through diagnostics::lint_to_code_actions); documents from every front-end through DocumentState with the curated LintGroup: every diagnostic range read by the reference client, code actions requested at every position inside every diagnostic range (sampled for spans longer than the bound), every returned TextEdit applied by the reference client. thorough adds all texts of length <= 4 over {a, LF, astral, CR}. non-trivial = distinct (text, span) / (text, span, suggestion) / (text, range) / linted document".into();
+    rep.rule = "texts: random concatenations of ASCII/tab/LF/CRLF/lone-CR/astral/combining/BMP-edge pieces (<= 12 pieces; all spans incl. out-of-text ones, the full position grid incl. non-existent lines and columns past the line end, all ordered pairs of valid positions on small texts, 1-3 suggestions per span through diagnostics::lint_to_code_actions); documents from every front-end through DocumentState with the curated LintGroup: every diagnostic range read by the reference client, code actions requested at every position inside every diagnostic range (sampled for spans longer than the bound), every returned TextEdit applied by the reference client. the UTF-16 width of single scalar values (every 251st + boundaries; thorough: all 1 112 063 except LF); the specification side (resolve_lsp / client_apply_lsp, lines ending at LF, CRLF or CR) against the reference client on every text incl. lone CR. thorough adds all texts of length <= 4 over {a, LF, astral, CR}. non-trivial = distinct (text, span) / (text, span, suggestion) / (text, range) / linted document".into();
     let dict = FstDictionary::curated();
     let mut merged = MergedDictionary::new();
     merged.add_dictionary(dict.clone());
@@ -588,6 +658,33 @@ pub fn run(a: &Args, corpus: &[Value]) {
     if a.replay.is_some() {
         rep.finish();
         return;
+    }
+    // char::len_utf16 as used by span_to_range vs the model's len_utf16: the column behind a one-character
+    // line, for scalar values across the whole range (thorough: every one of them)
+    {
+        let step = if a.thorough() { 1 } else { 251 };
+        let mut cands: Vec<u32> = (0..=0x10FFFFu32).step_by(step).collect();
+        cands.extend([0x7f, 0x80, 0x7ff, 0x800, 0xd7ff, 0xe000, 0xfffe, 0xffff, 0x10000, 0x10001, 0x1f600, 0x10ffff]);
+        for c in cands {
+            let Some(ch) = char::from_u32(c) else { continue };
+            if ch == '\n' {
+                continue;
+            }
+            let t = [ch];
+            let rg = guarded(|| span_to_range(&t, Span { start: 0, end: 1 }));
+            rep.eval();
+            rep.count("utf16_width_sweep");
+            match rg {
+                Ok(rg) => {
+                    rep.case(&format!("S 0 1 | {}", cps(&t)), &fmt_range(&rg));
+                    let want = if c >= 0x10000 { 2 } else { 1 };
+                    if rg.end != pos(0, want) || rg.start != pos(0, 0) {
+                        fail(&mut rep, "utf16_width", format!("U+{c:04X} takes {want} UTF-16 code unit(s) but the range of the one-character text is {}", fmt_range(&rg)), text_input(&t, "utf16"));
+                    }
+                }
+                Err(m) => fail(&mut rep, "span_to_range_panics", format!("span_to_range panicked on U+{c:04X}: {m}"), text_input(&t, "utf16")),
+            }
+        }
     }
     for _ in 0..a.scale(260, 4000) {
         let t = random_text(&mut r, 12);
